@@ -104,6 +104,7 @@ def run_check(prop, tier, seed):
     ob_axioms = {}
     functions = []
     undecided = []
+    unsupported_frs = []
     assumptions = set(getattr(m, 'TRUSTED', []))
     bounded_notes = []
     dropped = []
@@ -128,6 +129,7 @@ def run_check(prop, tier, seed):
                           'generation_s': round(fr.gen_s, 3), 'clause': c.clause})
         if fr.status != 'ok':
             undecided.append('%s: %s' % (c.id, fr.reason))
+            unsupported_frs.append((fr, c))
         for a in fr.assumed:
             assumptions.add('assumed callee contract: ' + a)
         for a in c.assumes:
@@ -338,6 +340,31 @@ def run_check(prop, tier, seed):
                             it.values = None
                             it.values_sexpr = None
                             break
+    # functions whose obligations could not be generated (construct outside the subset, changed shape): no proof and no
+    # alarm from the proof side - but the contract's executable form can still be evaluated on the real code over its
+    # witness library; an input on which the REAL function violates it is a violation with a replayed failing input
+    os.makedirs(os.path.join(HERE, 'replays'), exist_ok=True)
+    for fr_, c_ in list(unsupported_frs):
+        if c_.replay is None or not c_.witness_library:
+            continue
+        for w in c_.witness_library:
+            path = os.path.join(HERE, 'replays', 'candidate.json')
+            with open(path, 'w') as f:
+                json.dump({'property': prop, 'obligation': c_.id + '/library', 'contract': c_.id, 'inputs': w}, f,
+                          default=repr)
+            res = run_replay(path)
+            if res.get('verdict') == 'confirmed':
+                it = Item(c_.id + '/library', c_.id, 'post',
+                          'no verification condition could be generated for this function (%s); on the real code its '
+                          'executable contract FAILS for an input of the witness library: %s'
+                          % (fr_.reason[:120], '; '.join(res.get('violated', []))[:300]), tier=c_.tier, func=c_.qualname)
+                it.fr = fr_
+                it.ob = None
+                it.result = 'sat'
+                it.backend = 'replay(witness library)'
+                it.refuted_by = {'origin': 'witness library', 'inputs': w, 'replay': res}
+                items.append(it)
+                break
     # vacuity
     for it in covers:
         if it.result == 'unsat':
